@@ -32,6 +32,24 @@ inductive Op where
   | setMeta (t : Nat) (n : NodeId) (m : Option (List (String × String)))
   | filter (t : Nat) (n : NodeId) (v : T → Flt.Verdict)
   | filtered (st : Nat) (src : Option NodeId) (v : T → Flt.Verdict)
+  /-- a shortcut of `add_child` called on node `ref` (`append_child` / `prepend_child`: the parent, 0 =
+  the system root; `prepend_sibling` / `append_sibling`: the sibling).  The target, `before` and (for the
+  sibling forms in a typed tree) the kind are resolved by `Tree.viaArgs`. -/
+  | addVia (t : Nat) (ref : NodeId) (a : Atom) (via : Via) (did : Option DataId) (kind : Option String)
+  /-- `del tree[key]`; `a` = the key as a pool data object, `asId` = the key as a data_id (int/str);
+  neither = the key is a `Node`.  See `Tree.lookupKey`. -/
+  | delItem (t : Nat) (a : Option Atom) (asId : Option DataId)
+  /-- `node.set_meta(k, v)`, the value as JSON text (`null` removes the entry). -/
+  | metaSet (t : Nat) (n : NodeId) (k v : String)
+  /-- `node.clear_meta(k)` (`none` = all). -/
+  | metaClear (t : Nat) (n : NodeId) (k : Option String)
+  /-- `node.update_meta(vals, replace=)`. -/
+  | metaUpdate (t : Nat) (n : NodeId) (vals : List (String × String)) (replace : Bool)
+  /-- `Tree.clear()` = `self._root.remove_children()`. -/
+  | clear (t : Nat)
+  /-- `Tree.sort(key=, reverse=, deep=)` = `self._root.sort_children(key=, reverse=, deep=)`; `deep`
+  defaults to `True` here (`Node.sort_children` defaults to `False`). -/
+  | sortTree (t : Nat) (key : KeyFn) (rev : Bool) (deep : Option Bool)
 
 namespace World
 
@@ -46,6 +64,15 @@ def push (w : World) (r : Tree × NodeId × Option Err) : World × Option Err :=
   match r.2.2 with
   | some e => (w, some e)
   | none => ({ trees := w.trees ++ [r.1], next := r.2.1 }, none)
+
+/-- a metadata edit of node `n` of tree `i`: the new dictionary is `f` of the node's current one. -/
+def metaEdit (w : World) (i : Nat) (n : NodeId)
+    (f : Option (List (String × String)) → Option (List (String × String))) : World × Option Err :=
+  match w.trees[i]? with
+  | none => (w, some .other)
+  | some t => match findT n t.root with
+    | none => (w, some .other)
+    | some x => (w.setTree i { t with root := setInfoT n (fun inf => { inf with nmeta := f x.info.nmeta }) t.root }, none)
 
 /-- one operation; an unknown tree index or node id is `Err.other` (the driver never sends one). -/
 def step (w : World) : Op → World × Option Err
@@ -131,6 +158,29 @@ def step (w : World) : Op → World × Option Err
       | some n => match findT n s.root with
         | none => (w, some .other)
         | some x => w.push (Flt.nodeFiltered s w.next x v)
+  | .addVia i ref a via did kind =>
+    match w.trees[i]? with
+    | none => (w, some .other)
+    | some t => match t.viaArgs ref via kind with
+      | .error e => (w, some e)
+      | .ok r => match t.addData w.next r.1 a r.2.1 did r.2.2 with
+        | .ok t1 => ({ trees := w.trees.set i t1, next := w.next + 1 }, none)
+        | .error e => (w, some e)
+  | .delItem i a asId =>
+    match w.trees[i]? with
+    | none => (w, some .other)
+    | some t => let r := t.delItem a asId; (w.setTree i r.1, r.2)
+  | .metaSet i n k v => w.metaEdit i n (fun m => metaSetV m k v)
+  | .metaClear i n k => w.metaEdit i n (fun m => metaClear m k)
+  | .metaUpdate i n vals replace => w.metaEdit i n (fun m => metaUpdate m vals replace)
+  | .clear i =>
+    match w.trees[i]? with
+    | none => (w, some .other)
+    | some t => (w.setTree i (t.removeChildren 0), none)
+  | .sortTree i key rev deep =>
+    match w.trees[i]? with
+    | none => (w, some .other)
+    | some t => let r := t.sort 0 key rev (deep.getD true); (w.setTree i r.1, r.2)
 
 /-- the state after a history. -/
 def run (ops : List Op) : World := ops.foldl (fun w o => (step w o).1) {}
